@@ -1,3 +1,4 @@
 //! Proof-system layer checks (C01–C03, C12 domain part, C14, C17): shared engines.
 pub mod e1;
 pub mod pv;
+pub mod c12_domain;
